@@ -55,10 +55,16 @@ def run():
                 env["XSIM_RUNS"] = runs
                 env["XSIM_TIME"] = env.get("XSIM_TIME", "600")
                 tier = "quick with XSIM_RUNS=%s" % runs
-            r = sh("./check %s quick" % p, cwd=ROOT, env=env)
+            cmd_tier = "quick"
+            if "!" in p:  # PROP!SECONDS: the thorough command with a time budget
+                p, secs = p.split("!")
+                env["XSIM_TIME"] = secs
+                tier = "thorough with XSIM_TIME=%s" % secs
+                cmd_tier = "thorough"
+            r = sh("./check %s %s" % (p, cmd_tier), cwd=ROOT, env=env)
             viol = re.findall(r"^VIOLATION property=(\S+) replay=(\S+)", r.stdout, re.M)
             classes = sorted(set(re.findall(r"class=(\S+)", r.stdout + r.stderr)))
-            key = p if tier == "quick" else p + "@" + env["XSIM_RUNS"]
+            key = p if tier == "quick" else (p + "@" + env["XSIM_RUNS"] if cmd_tier == "quick" else p + "!" + env["XSIM_TIME"])
             results[key] = {"tier": tier, "exit": r.returncode, "caught": bool(viol) and r.returncode == 1,
                           "violations": len(viol), "classes": classes, "wall_s": round(time.time() - t0, 1),
                           "repo_head": sh("git -C %s rev-parse --short HEAD" % REPO).stdout.strip()}
